@@ -334,3 +334,78 @@ func modelVals(m map[string]string, keys []string) []string {
 
 var _ = sort.Strings
 var _ = common.ErrInvalidArgs
+
+// RunPartialHost: a data node that hosts only partitions 0 and 1 of a 3-partition namespace (the usual
+// situation in a cluster). A command that names a key of the partition it does not host must be
+// refused as a whole: no nil in place of a value it cannot know, no partial write on the hosted ones.
+func RunPartialHost(col *ev.Collector, n *Node) (cmds int) {
+	c, err := Dial(n.Port)
+	if err != nil {
+		panic(err)
+	}
+	defer c.Close()
+	// one key per partition
+	keyOf := map[int]string{}
+	for i := 0; len(keyOf) < 3 && i < 1000; i++ {
+		k := fmt.Sprintf("%s:t:h%d", NS, i)
+		if _, ok := keyOf[pidOf(k, 3)]; !ok {
+			keyOf[pidOf(k, 3)] = k
+		}
+	}
+	c.Do("set", keyOf[0], "v0")
+	c.Do("set", keyOf[1], "v1")
+	dump := func() string { return DumpKey(n.PartDump(0)) + "|" + DumpKey(n.PartDump(1)) }
+	for _, hosted := range []int{0, 1} {
+		for _, order := range [][]int{{hosted, 2}, {2, hosted}, {hosted, 2, hosted}} {
+			var keys []string
+			for _, p := range order {
+				keys = append(keys, keyOf[p])
+			}
+			for _, cmd := range []string{"mget", "exists", "del"} {
+				before := dump()
+				r, err := c.Do(append([]string{cmd}, keys...)...)
+				cmds++
+				if err != nil {
+					panic(err)
+				}
+				if r.Kind != "err" {
+					col.Add(ev.Violation{Property: "C15", Signature: "C15|partial-host|" + cmd + "|answered", What: fmt.Sprintf("a node hosting partitions 0 and 1 of 3 answers %s %v (keys of partitions %v) with %v instead of refusing it: it cannot know the key of partition 2", cmd, keys, order, r)})
+				}
+				if after := dump(); after != before {
+					col.Add(ev.Violation{Property: "C15", Signature: "C15|partial-host|" + cmd + "|partial-effect", What: fmt.Sprintf("%s %v (partitions %v) changed the hosted partitions although partition 2 is not hosted (reply %v)", cmd, keys, order, r)})
+					c.Do("set", keyOf[0], "v0")
+					c.Do("set", keyOf[1], "v1")
+				}
+			}
+			// PLSET answers per pair: the pair of the unhosted partition must be an error
+			var args []string
+			for _, k := range keys {
+				args = append(args, k, "w")
+			}
+			rs, err := c.DoFramed(append([]string{"plset"}, args...))
+			cmds++
+			if err == nil {
+				nerr := 0
+				for _, r := range rs {
+					if r.Kind == "err" {
+						nerr++
+					}
+				}
+				if nerr == 0 {
+					col.Add(ev.Violation{Property: "C15", Signature: "C15|partial-host|plset|answered", What: fmt.Sprintf("PLSET on keys of partitions %v answers %v: no error although partition 2 is not hosted", order, rs)})
+				}
+			}
+			c.Do("set", keyOf[0], "v0")
+			c.Do("set", keyOf[1], "v1")
+		}
+	}
+	// single-key commands on the unhosted partition
+	for _, cmd := range [][]string{{"get", keyOf[2]}, {"set", keyOf[2], "x"}, {"incr", keyOf[2]}} {
+		r, _ := c.Do(cmd...)
+		cmds++
+		if r.Kind != "err" {
+			col.Add(ev.Violation{Property: "C15", Signature: "C15|partial-host|" + cmd[0] + "|answered", What: fmt.Sprintf("%v on a key of the partition that is not hosted answers %v", cmd, r)})
+		}
+	}
+	return cmds
+}
